@@ -146,6 +146,13 @@ where
                         break;
                     }
                     let t0 = std::time::Instant::now();
+                    // debugging aid: VERIF_ONLY_SIM=<index> runs just that sim of the batch
+                    if let Ok(only) = std::env::var("VERIF_ONLY_SIM") {
+                        if only.parse::<u64>().ok() != Some(i) {
+                            results.lock().unwrap()[i as usize] = Some(SimResult::default());
+                            continue;
+                        }
+                    }
                     let r = f(i);
                     if std::env::var("VERIF_DEBUG").is_ok() {
                         eprintln!("sim {} took {:.2}s evals={}", i, t0.elapsed().as_secs_f64(), r.evaluations);
